@@ -45,6 +45,14 @@ DROPPED = ["print(...) statements (and the f-strings/calls inside them)", "docst
            "import statements and module-level code other than def/class", "comments"]
 
 
+# a property whose statement builds on another one also decides that one's obligations on the units it shares
+INCLUDES = {"C10": ("C04",), "C03": ("C02",)}
+
+
+def relevant(prop, props):
+    return prop in props or any(p in props for p in INCLUDES.get(prop, ()))
+
+
 def norm_name(n):
     n = re.sub(r"exit\d+\.", "", n)
     n = re.sub(r"@L\d+", "", n)
@@ -112,7 +120,7 @@ def main():
     if tier == "thorough":
         os.environ["PYVC_CVC5"] = "1"       # every unsat query is re-decided by cvc5 from its SMT-LIB export
     try:
-        units = [u for u in U.all_units() if prop in U.unit_props(u)]
+        units = [u for u in U.all_units() if relevant(prop, U.unit_props(u))]
         if args.only:
             units = [u for u in units if args.only in "%s:%s.%s" % u]
         if not units:
@@ -124,9 +132,9 @@ def main():
             n = U.shards_for(u)
             cv = carve_for(all_known, u)
             if n <= 1:
-                tasks.append((u[0], u[1], u[2], timeout_ms, True, None, cv, prop))
+                tasks.append((u[0], u[1], u[2], timeout_ms, True, None, cv, (prop,) + INCLUDES.get(prop, ())))
             else:
-                tasks.extend((u[0], u[1], u[2], timeout_ms, True, (i, n), cv, prop) for i in range(n))
+                tasks.extend((u[0], u[1], u[2], timeout_ms, True, (i, n), cv, (prop,) + INCLUDES.get(prop, ())) for i in range(n))
         # longest first
         with mp.Pool(args.jobs, maxtasksperchild=1) as pool:
             shard_results = pool.map(U.run_unit, tasks, chunksize=1)
@@ -135,7 +143,7 @@ def main():
         import traceback
         traceback.print_exc()
         return 3
-    known = [k for k in all_known if prop in k["properties"]]
+    known = [k for k in all_known if relevant(prop, k["properties"])]
     total = discharged = 0
     refuted = []
     undecided = []
@@ -160,7 +168,7 @@ def main():
                 if o["status"] != "proved":
                     vacuous.append(r["unit"])
                 continue
-            if prop not in o["props"]:
+            if not relevant(prop, o["props"]):
                 continue
             nrel += 1
             total += 1
